@@ -231,4 +231,28 @@ def judgeServe (st : SpecState) (path : Option Str) (seen : Seen) : Option Strin
         else some (.named "")
     if target = some .nilFunc then none else some ("panic:" ++ what)
 
+/-! ## Requests on the wire (RFC 7252 §5.10.1, §6.5)
+
+Each Uri-Path option of a request is one segment of the path — also an EMPTY one (a trailing or doubled slash); a value
+has 0 to 255 bytes.  The request's path is `/` + the segments joined by `/`; without any Uri-Path option the path is
+empty (the root).  Methods are the codes 0.01 … 0.31. -/
+
+def wireSegmentsLegal (segs : List Str) : Bool := segs.all (fun s => byteLen s ≤ 255)
+
+def requestPath : List Str → Option Str
+  | [] => none
+  | s :: r => some (s :: r |>.foldr (fun x acc => '/' :: (x ++ acc)) [])
+
+def isRequestCode (code : Nat) : Bool := decide (1 ≤ code) && decide (code ≤ 31)
+
+/-- verdict on what a connection with the router installed did with one received message -/
+def judgeWire (st : SpecState) (code : Nat) (segs : List Str) (seen : Seen) : Option String :=
+  if !wireSegmentsLegal segs then some "bad-input:segment-longer-than-255"
+  else if isRequestCode code then judgeServe st (requestPath segs) seen
+  else
+    -- not a request (a response or an empty message nobody waits for): leaving it alone is fine, routing it must be right
+    match seen with
+    | .nothing => none
+    | _ => judgeServe st (requestPath segs) seen
+
 end CoapVerif.Spec.Router
